@@ -336,16 +336,14 @@ func (mc *MemoryChannel) appendAof(writer *MemoryAofWriter, buf []byte) (int, er
 }
 
 func (mc *MemoryChannel) finishAof(writer *MemoryAofWriter, err error) {
-	seg := writer.currentSegment()
-	if seg != nil {
-		seg.close(err)
-	}
-
+	// the writer's last segment is picked under the lock appendAof rotates under, and only once the writer cannot
+	// append any more : picked outside, a rotation of the still running ingest goroutine could slip in between, the
+	// segment it created was never closed and every reader stalled at its end, whatever a later writer appended
 	mc.mux.Lock()
-	defer mc.mux.Unlock()
 	if mc.aofWriter == writer {
 		mc.aofWriter = nil
 	}
+	seg := writer.currentSegment()
 	if seg != nil && seg.blob.len() == 0 {
 		for i := len(mc.aofSegs) - 1; i >= 0; i-- {
 			if mc.aofSegs[i] == seg {
@@ -355,6 +353,11 @@ func (mc *MemoryChannel) finishAof(writer *MemoryAofWriter, err error) {
 		}
 	}
 	mc.gcLocked(0)
+	mc.mux.Unlock()
+
+	if seg != nil {
+		seg.close(err)
+	}
 }
 
 func (mc *MemoryChannel) copyAofFrom(seg *memorySegment, offset int64, pipew pipeio.Writer, done <-chan struct{}) error {
